@@ -143,7 +143,7 @@ class _Taint:
 
 
 def r19_1(ctx: Ctx) -> RuleResult:
-    rr = RuleResult("R19.1", "projection never writes through to the document", floor=3)
+    rr = RuleResult("R19.1", "projection never writes through to the document", floor=2)
     mod = ctx.repo.modules.get("jsonpath.fluent_api")
     if mod is None:
         raise AnalysisError("jsonpath/fluent_api.py not found")
@@ -206,8 +206,8 @@ def r19_1(ctx: Ctx) -> RuleResult:
                        construct=short(w))
             else:
                 rr.ok(fn.loc(w), f"{fn.qualname}: `{short(w, 60)}` on a fresh container")
-    if n < 3:
-        raise AnalysisError(f"R19.1: only {n} write sites found in the projection helpers (floor 3)")
+    if n < 2:  # noqa: PLR2004  (the two stores of the insertion helper; the flat list may be a comprehension)
+        raise AnalysisError(f"R19.1: only {n} write sites found in the projection helpers (floor 2)")
     return rr
 
 
@@ -234,6 +234,33 @@ def r19_2(ctx: Ctx) -> RuleResult:
     return rr
 
 
+def _flat_comprehension(body: List[ast.stmt], exprs: str) -> Optional[str]:
+    """The flat projection written as one list comprehension that is returned: None when the branch is not of that
+    form, "" when it lists every selected value in selection order, otherwise what is wrong with it."""
+    if not (len(body) == 1 and isinstance(body[0], ast.Return) and isinstance(body[0].value, ast.ListComp)):
+        return None
+    lc = body[0].value
+    gens = lc.generators
+    if len(gens) != 2 or any(g.is_async for g in gens):  # noqa: PLR2004
+        return None
+    first, second = gens
+    # the first generator runs over the expressions in order, or over (f(expr) for expr in expressions)
+    src = first.iter
+    if isinstance(src, (ast.GeneratorExp, ast.ListComp)):
+        if len(src.generators) != 1 or src.generators[0].ifs or path_of(src.generators[0].iter) != exprs:
+            return "the flat projection must run over the expressions in order"
+    elif path_of(src) != exprs:
+        return "the flat projection must run over the expressions in order"
+    if not (isinstance(second.iter, ast.Call) and callee_name(second.iter) == "finditer"):
+        return "each expression's matches must be iterated inside the loop over expressions"
+    if first.ifs or second.ifs:
+        return "every selected value must be listed unconditionally, in selection order"
+    mv = path_of(second.target)
+    if mv is None or path_of(lc.elt) != f"{mv}.obj":
+        return "every selected value must be listed unconditionally, in selection order"
+    return ""
+
+
 def r19_3(ctx: Ctx) -> RuleResult:
     rr = RuleResult("R19.3", "flat projection appends the selected values in selection order", floor=1)
     fn = ctx.repo.require_func("Query._select")
@@ -242,6 +269,14 @@ def r19_3(ctx: Ctx) -> RuleResult:
     for n in ast.walk(fn.node):
         if isinstance(n, ast.If) and "FLAT" in ast.unparse(n.test):
             outer = [s for s in n.body if isinstance(s, ast.For) and path_of(s.iter) == exprs]
+            comp = _flat_comprehension(n.body, exprs)
+            if comp is not None:
+                found = True
+                if comp == "":
+                    rr.ok(fn.loc(n), "flat: [m.obj for expr in expressions for m in path.finditer(match.obj)]")
+                else:
+                    rr.bad(fn, n, comp, construct="flat: comprehension")
+                continue
             if len(outer) != 1:
                 rr.bad(fn, n, "the flat projection must loop over the expressions in order", construct="flat: outer loop")
                 return rr
@@ -487,4 +522,238 @@ def r19_10(ctx: Ctx) -> RuleResult:
     return rr
 
 
-RULES = [r19_1, r19_2, r19_3, r19_4, r19_5, r19_6, r19_7, r19_8, r19_9, r19_10]
+
+# ---------------------------------------------------------------------------------------------------------------
+# R19.11: the projection of a match, executed abstractly on covering selections
+
+PROJ_DOC: Dict[str, object] = {
+    "a": {"b": [0, {"c": {"g": 1}}, False, "z"], "d": "", "1": "one", "n": None},
+    "e": [{"f": 1}, {"f": None}, [7, 8, 9]],
+    "s": "text",
+}
+
+# (location of the match, for every relative query the locations it selects - relative to the match, in order)
+PROJ_CASES: List[Tuple[Tuple[object, ...], List[List[Tuple[object, ...]]]]] = [
+    (("a",), [[("b",)], [("b", 1, "c"), ("d",)]]),          # a later selection below an earlier one
+    (("a",), [[("b", 1, "c")], [("b", 3)]]),                # ranks in a sparse array
+    (("a",), [[("b", 0)], [("b", 2)], [("d",), ("n",)]]),    # falsy values are values
+    (("a",), [[("1",)], [("b", 1, "c", "g")]]),              # a member name that looks like an index stays a name
+    (("a",), [[("b", 1, "c", "g")], [("b", 1)]]),            # an earlier selection below a later one
+    (("e",), [[(1, "f")], [(2, 0), (2, 2)]]),                 # the match is an array; nested arrays
+    (("e", 2), [[(1,)]]),
+    ((), [[("a", "b", 1, "c"), ("e", 0, "f")], [("s",)]]),   # the match is the root
+    (("a",), [[], []]),                                       # nothing selected
+    (("s",), [[]]),                                           # the match is a string
+    (("a", "n"), [[]]),                                       # the match is null
+    (("a", "b", 0), [[]]),                                    # the match is a number
+]
+
+
+def _projection_reference(doc: object, at: Tuple[object, ...], selections: List[List[Tuple[object, ...]]], style: str) -> object:
+    """C19's statement written down on its own: flat = the selected values in order; relative / root = the value in
+    which each selected value is found at its location with every array index replaced by its rank among the indices
+    selected in that array, and nothing else; None when the match is not a container."""
+    import copy as _copy
+
+    def get(v: object, parts: Tuple[object, ...]) -> object:
+        for p_ in parts:
+            v = v[p_]  # type: ignore[index]
+        return v
+
+    here = get(doc, at)
+    if not isinstance(here, (dict, list)):
+        return None
+    located = [(parts, _copy.deepcopy(get(here, parts))) for sel in selections for parts in sel]
+    if style == "FLAT":
+        return [v for _p, v in located]
+    LEAF = "$leaf"
+    trie: Dict[object, object] = {}
+    for parts, v in located:
+        full = tuple(at) + tuple(parts) if style == "ROOT" else tuple(parts)
+        node = trie
+        for p_ in full:
+            if LEAF in node:
+                break  # below a value that is already there whole
+            node = node.setdefault(("k", p_), {})  # type: ignore[assignment]
+        else:
+            node.clear()
+            node[LEAF] = v
+
+    def build(node: Dict[object, object]) -> object:
+        if LEAF in node:
+            return node[LEAF]
+        keys = [k[1] for k in node]  # type: ignore[index]
+        if keys and all(isinstance(k, int) for k in keys):
+            return [build(node[("k", k)]) for k in sorted(keys)]  # type: ignore[arg-type,type-var]
+        return {k: build(node[("k", k)]) for k in keys}  # type: ignore[arg-type]
+
+    return build(trie)
+
+
+def projection_by_execution(ctx: Ctx, rule: str, floor: int, only_purity: bool = False) -> RuleResult:
+    import copy as _copy
+
+    from sa.peval import UNKNOWN
+
+    from .model import RAISES
+    from .model import MObj
+    from .model import Model
+
+    rr = RuleResult(rule, "the projection of a match under the three styles, executed on covering selections; the document is left as it was", floor=floor)
+    fn = ctx.repo.require_func("Query._select")
+    pcls = ctx.folder.global_value(ctx.repo.modules["jsonpath.fluent_api"], "Projection")
+    if not hasattr(pcls, "cls"):
+        raise AnalysisError(f"{rule}: jsonpath.fluent_api.Projection is not a class")
+
+    class _Path(MObj):
+        """Stands for a compiled relative query: `finditer(value)` gives the matches at the locations of the case."""
+
+        def __init__(self, model: Model, rel: List[Tuple[object, ...]]) -> None:
+            super().__init__(model, "jsonpath.path.JSONPath", {})
+            self.rel = rel
+
+        def peval_call(self, method: str, args: List[object], kwargs: Dict[str, object]) -> object:
+            if method == "finditer" and len(args) == 1 and not kwargs:
+                out = []
+                for parts in self.rel:
+                    v = args[0]
+                    for p_ in parts:
+                        v = v[p_]  # type: ignore[index]
+                    out.append(MObj(self.model, "jsonpath.match.JSONPathMatch", {
+                        "parts": tuple(parts), "obj": v, "path": "$", "root": args[0], "parent": None, "children": [], "filter_context": {}}))
+                return out
+            return UNKNOWN
+
+    def containers(v: object, parts: Tuple[object, ...], out: Dict[Tuple[object, ...], int]) -> None:
+        if isinstance(v, dict):
+            out[parts] = id(v)
+            for k, x in v.items():
+                containers(x, parts + (k,), out)
+        elif isinstance(v, list):
+            out[parts] = id(v)
+            for i, x in enumerate(v):
+                containers(x, parts + (i,), out)
+
+    for at, selections in PROJ_CASES:
+        for style in ("RELATIVE", "FLAT", "ROOT"):
+            try:
+                style_value = ctx.folder.class_attr(pcls.cls, style)
+            except Exception as err:  # noqa: BLE001
+                raise AnalysisError(f"{rule}: Projection.{style} not found") from err
+            model = Model(ctx, rule)
+            model.whole_bodies = model.auto_construct = model.exact_exceptions = model.heap = True
+            doc = _copy.deepcopy(PROJ_DOC)
+            before: Dict[Tuple[object, ...], int] = {}
+            containers(doc, (), before)
+            here: object = doc
+            for p_ in at:
+                here = here[p_]  # type: ignore[index]
+            env = model.new("jsonpath.env.JSONPathEnvironment")
+            query = MObj(model, "jsonpath.fluent_api.Query", {"_env": env, "_it": []})
+            match = MObj(model, "jsonpath.match.JSONPathMatch", {
+                "parts": tuple(at), "obj": here, "path": "$", "root": doc, "parent": None, "children": [], "filter_context": {}})
+            exprs = tuple(_Path(model, sel) for sel in selections)
+            got = model.call(query, "_select", [match, exprs, style_value])
+            again = model.call(query, "_select", [match, exprs, style_value]) if got is not RAISES else got
+            label = f"{style.lower()} projection of the match at {list(at)} with selections {[[list(x) for x in sel] for sel in selections]}"
+            if got is RAISES:
+                rr.bad(fn, fn.node, f"{label} raises {str(model.last_raised).split('.')[-1]}", construct=f"{style} at {list(at)}: raises")
+                continue
+            after: Dict[Tuple[object, ...], int] = {}
+            containers(doc, (), after)
+            if doc != PROJ_DOC or after != before:
+                what = "changes the document" if doc != PROJ_DOC else "replaces arrays / objects of the document by copies (the document is written to)"
+                rr.bad(fn, fn.node, f"{label} {what}", construct=f"{style} at {list(at)} {[[list(x) for x in sel] for sel in selections]}: document modified")
+                continue
+            if not only_purity and (again is RAISES or again is UNKNOWN or again != got):
+                rr.bad(fn, fn.node, f"{label} is {got!r} the first time and {'an exception' if again is RAISES else repr(again)} the second time: "
+                       "a projection must not depend on projections made before it", construct=f"{style} at {list(at)}: second projection differs")
+                continue
+            if only_purity:
+                rr.ok(fn.loc(), f"{label}: the document is the same objects with the same content afterwards")
+                continue
+            if got is UNKNOWN or _has_unknown(got):
+                raise AnalysisError(f"{rule}: the {label} cannot be determined")
+            want = _projection_reference(PROJ_DOC, at, selections, style)
+            nothing = not any(selections) or want is None
+            if nothing:
+                if got:
+                    rr.bad(fn, fn.node, f"{label} is {got!r}: a match that is not an array or object, or for which nothing is selected, has no projection",
+                           construct=f"{style} at {list(at)}: projection of nothing")
+                else:
+                    rr.ok(fn.loc(), f"{label}: no projection")
+                continue
+            if type(got) is type(want) and got == want and _same_types(got, want):
+                rr.ok(fn.loc(), f"{label} = {want!r}")
+            else:
+                rr.bad(fn, fn.node, f"{label} is {got!r}, but the selected values at their (rank-compacted) locations are {want!r}",
+                       construct=f"{style} at {list(at)} {[[list(x) for x in sel] for sel in selections]}")
+    return rr
+
+
+def _has_unknown(v: object) -> bool:
+    from sa.peval import UNKNOWN
+
+    if v is UNKNOWN:
+        return True
+    if isinstance(v, dict):
+        return any(_has_unknown(k) or _has_unknown(x) for k, x in v.items())
+    if isinstance(v, (list, tuple)):
+        return any(_has_unknown(x) for x in v)
+    return not (v is None or isinstance(v, (str, int, float, bool)))
+
+
+def _same_types(a: object, b: object) -> bool:
+    """`==` between JSON values, with booleans kept apart from numbers (False == 0 in Python)."""
+    if isinstance(a, bool) != isinstance(b, bool):
+        return False
+    if isinstance(a, dict) and isinstance(b, dict):
+        return list(a) == list(b) and all(_same_types(a[k], b[k]) for k in a)
+    if isinstance(a, list) and isinstance(b, list):
+        return len(a) == len(b) and all(_same_types(x, y) for x, y in zip(a, b))
+    return type(a) is type(b) and a == b
+
+
+def _or_executed(rule: str, title: str, shape_rule):  # type: ignore[no-untyped-def]
+    """A rule that reads the shape of Query._select and its two helpers: when the shape it knows is not there (the
+    projection was rewritten - other helpers, a table of styles, a comprehension), the clause is not given up as
+    undecidable: R19.11 executes the projection itself on covering selections, whatever its shape, and fails the run
+    if it cannot follow it.  A shape that IS recognised and violates the clause is reported as before."""
+
+    def run(ctx: Ctx) -> RuleResult:
+        try:
+            return shape_rule(ctx)
+        except AnalysisError as err:
+            executed = ctx.cached("r19_11", lambda: r19_11(ctx))  # (raises when the execution cannot be followed)
+            rr = RuleResult(rule, title, floor=0)
+            rr.note(f"the shape this rule reads was not found ({str(err)[:160]}); the clause is decided by R19.11, which executed the "
+                    f"projection on {len(executed.instances)} covering cases")
+            rr.ok("jsonpath/fluent_api.py", f"{rule}: decided by execution (R19.11)")
+            return rr
+
+    run.__name__ = shape_rule.__name__
+    run.__doc__ = shape_rule.__doc__
+    return run
+
+
+def r19_11(ctx: Ctx) -> RuleResult:
+    """The property itself on covering selections, by abstract execution of Query._select (rules/model.py; exceptions as
+    they run, containers changed in place): the relative queries are stood in for by objects whose `finditer` gives the
+    matches at chosen locations below the match; the result is compared with C19's statement written down on its own
+    (_projection_reference), and the document must afterwards be the same objects with the same content."""
+    return projection_by_execution(ctx, "R19.11", floor=30)
+
+
+RULES = [
+    _or_executed("R19.1", "projection never writes through to the document", r19_1),
+    _or_executed("R19.2", "matches that are not arrays or objects produce no projection", r19_2),
+    _or_executed("R19.3", "flat projection appends the selected values in selection order", r19_3),
+    _or_executed("R19.4", "every selected value is stored at its location, unconditionally", r19_4),
+    _or_executed("R19.5", "only non-empty integer-keyed levels become arrays", r19_5),
+    r19_6,
+    _or_executed("R19.7", "an existing level of the projection is never replaced by an empty one", r19_7),
+    r19_8,
+    _or_executed("R19.9", "only levels keyed by int indices become arrays", r19_9),
+    _or_executed("R19.10", "a projection is written only by inserting selected nodes", r19_10),
+    lambda ctx: ctx.cached("r19_11", lambda: r19_11(ctx)),
+]
